@@ -4,7 +4,9 @@ from harness import common
 
 PID = "C20"
 RULE = ("all 27 orderings (each component <,=,> ) x boundary values {0,1,2,7,10^9,2^64} enumerated exhaustively, "
-        "plus seeded random triples up to 2^70; non-trivial = distinct (current,minimum) pair; "
+        "plus seeded random triples up to 2^70; twelve files written by the package in every creating mode at paths with a "
+        "history (EMD / non-EMD / nothing, seen under both the str and the pathlib spelling), written under one spelling and "
+        "asked for their version under the other; non-trivial = distinct (current,minimum) pair; "
         "tie to source: EmdGen.versionIsGeq is regenerated from utils._version_is_geq on every run and C20_lex re-proved")
 EXHAUSTIVE = {"quick": False, "thorough": False}
 VALS = [0, 1, 2, 7, 10**9, 2**64]
